@@ -129,6 +129,7 @@ class Driver:
         self.quiescent_checks: list[dict] = []
         self.bookmarks = 0
         self.seq = 0
+        self.spawn_stats: dict[str, int] = collections.Counter()
         self.unechoed: dict[int, list[str]] = collections.defaultdict(list)   # patched versions returned, echo not yet fed
         self.cons_obs: dict[int, list[tuple]] = collections.defaultdict(list)   # C07: per uid worker-side observations
         self._installed: list[tuple[Any, str, Any]] = []
@@ -258,6 +259,7 @@ class Driver:
                 if self.new1_logged_for != e:
                     self.log('ArriveNew1', u, e)
                 self.log('ArriveNew2', u, e)
+                self.new2_step = self.loop.steps
             else:
                 if lq.uid != u:
                     self.breaks.append(f'event of uid {u} put into the backlog of uid {lq.uid}')
@@ -265,6 +267,8 @@ class Driver:
             self.put[u].append(e)
         elif lq.role == 'pending':
             self.log('Spawn', self.coro_uid.get(id(item.coro), -1))
+            # does the watcher ever suspend between the stream insertion and the queueing of the job?
+            self.spawn_stats['same iteration' if getattr(self, 'new2_step', None) == self.loop.steps else 'suspended'] += 1
         elif lq.role == 'cleaning':
             self.log('Exit')
 
@@ -505,6 +509,11 @@ class Driver:
             raise ValueError(f'unknown action {a!r}')
         return True
 
+    def quiescent_mark(self, final: bool = False) -> None:
+        """The loop is quiescent: the model must have no internal step enabled either (acceptor item TQ)."""
+        if self.tracing and not self.closed:
+            self.trace.append(('Q', final))
+
     def quiescent_record(self) -> None:
         """Facts of the implementation at a quiescent point, for the monitors."""
         if self.closed or self.sched is None:
@@ -553,6 +562,8 @@ class Driver:
         for it in self.trace:
             if it[0] == 'L':
                 out.append('TL ' + coq_label(it[1:]))
+            elif it[0] == 'Q':
+                out.append(f'TQ {uni} {cq.cbool(it[1])}')
             else:
                 sn = it[1]
                 streams = cq.clist(
@@ -614,9 +625,11 @@ def run_scenario(cfg: Config, actions: list[tuple], epilogue: bool = True) -> Dr
                 drv.performed.append(ok)  # type: ignore[attr-defined]
                 if a[0] == 'S' and ok:
                     drv.quiescent_record()
+                    drv.quiescent_mark()
             if epilogue:
                 drv.finish_all()
                 drv.quiescent_record()
+                drv.quiescent_mark(final=True)
     finally:
         drv.stop()
     return drv
